@@ -1101,7 +1101,8 @@ func accessRecords(p *packages.Package) []access {
 			if fd.Recv != nil && len(fd.Recv.List) > 0 {
 				fname = exprString(fd.Recv.List[0].Type) + "." + fname
 			}
-			walkAccess(p, vars, fname, fd.Body.List, map[string]bool{}, &out)
+			sect := 0
+			walkAccess(p, vars, fname, fd.Body.List, map[string]bool{}, &out, &sect)
 		}
 	}
 	sort.Slice(out, func(i, j int) bool {
@@ -1119,7 +1120,14 @@ func accessRecords(p *packages.Package) []access {
 
 // walkAccess walks statements in order tracking Lock/Unlock/RLock/RUnlock calls on package mutexes
 // (purely syntactic, straight-line; deferred unlocks keep the lock held to the end).
-func walkAccess(p *packages.Package, vars map[types.Object]string, fn string, stmts []ast.Stmt, held map[string]bool, out *[]access) {
+func walkAccess(p *packages.Package, vars map[types.Object]string, fn string, stmts []ast.Stmt, held map[string]bool, out *[]access, sect *int) {
+	drop := func(prefix string) {
+		for k := range held {
+			if strings.HasPrefix(k, prefix) {
+				delete(held, k)
+			}
+		}
+	}
 	for _, st := range stmts {
 		// lock operations
 		if es, ok := st.(*ast.ExprStmt); ok {
@@ -1129,16 +1137,18 @@ func walkAccess(p *packages.Package, vars map[types.Object]string, fn string, st
 						if _, isVar := vars[p.TypesInfo.Uses[id]]; isVar {
 							switch se.Sel.Name {
 							case "Lock":
-								held[id.Name+":W"] = true
+								*sect++
+								held[fmt.Sprintf("%s:W#%d", id.Name, *sect)] = true
 								continue
 							case "Unlock":
-								delete(held, id.Name+":W")
+								drop(id.Name + ":W#")
 								continue
 							case "RLock":
-								held[id.Name+":R"] = true
+								*sect++
+								held[fmt.Sprintf("%s:R#%d", id.Name, *sect)] = true
 								continue
 							case "RUnlock":
-								delete(held, id.Name+":R")
+								drop(id.Name + ":R#")
 								continue
 							}
 						}
@@ -1640,18 +1650,32 @@ func main() {
 	ac.WriteString("namespace Protobom.Gen.Access\n\n")
 	ac.WriteString("/-- package, variable, function, isWrite, locks syntactically held, kind of use -/\n")
 	var recs []access
-	for _, name := range []string{"reader", "writer", "formats"} {
+	var vtypes []string
+	for _, name := range []string{"reader", "writer", "formats", "storage"} {
 		recs = append(recs, accessRecords(pkgs[name])...)
+		sc := pkgs[name].Types.Scope()
+		ns := sc.Names()
+		sort.Strings(ns)
+		for _, n := range ns {
+			if v, ok := sc.Lookup(n).(*types.Var); ok {
+				vtypes = append(vtypes, fmt.Sprintf("(%s, %s, %s)", leanStr(name), leanStr(n), leanStr(types.TypeString(v.Type(), func(p *types.Package) string { return p.Name() }))))
+			}
+		}
 	}
 	var items []string
 	for _, r := range recs {
 		var ls []string
 		for _, l := range r.Locks {
-			ls = append(ls, leanStr(l))
+			// name:mode#section
+			nm, rest, _ := strings.Cut(l, ":")
+			mode, sec, _ := strings.Cut(rest, "#")
+			ls = append(ls, fmt.Sprintf("(%s, %s, %s)", leanStr(nm), leanStr(mode), sec))
 		}
-		items = append(items, fmt.Sprintf("(%s, %s, %s, %v, [%s], %s)", leanStr(r.Pkg), leanStr(r.Var), leanStr(r.Func), r.Write, strings.Join(ls, ", "), leanStr(r.Kind)))
+		items = append(items, fmt.Sprintf("⟨%s, %s, %s, %v, [%s], %s⟩", leanStr(r.Pkg), leanStr(r.Var), leanStr(r.Func), r.Write, strings.Join(ls, ", "), leanStr(r.Kind)))
 	}
-	fmt.Fprintf(&ac, "def records : List (String × String × String × Bool × List String × String) := %s\n\n", leanList(items))
+	ac.WriteString("structure Rec where\n  pkg : String\n  var : String\n  fn : String\n  write : Bool\n  locks : List (String × String × Nat)  -- lock, mode, n-th critical section of the function\n  kind : String\nderiving Repr, DecidableEq\n\n")
+	fmt.Fprintf(&ac, "def records : List Rec := %s\n\n", leanList(items))
+	fmt.Fprintf(&ac, "/-- every package-level variable of the packages, with its type -/\ndef varTypes : List (String × String × String) := %s\n\n", leanList(vtypes))
 	ac.WriteString("end Protobom.Gen.Access\n")
 	writeIfChanged(filepath.Join(*out, "Access.lean"), ac.String())
 
